@@ -3,6 +3,7 @@ package main
 import (
 	"fmt"
 	"go/token"
+	"go/types"
 	"sort"
 	"strings"
 
@@ -111,7 +112,14 @@ func ruleRefusalCensus(p *Prog, r *Report) {
 		for _, pn := range live {
 			h := pn.Parent()
 			lk, key, mp := membershipGuard(pn)
-			if lk == nil || !insertsSame(h, mp, key, lk) {
+			if lk == nil {
+				// the same with a slice of flags instead of a set: seen[i] tested, then set
+				if h == fn && flagTestAndSet(pn) {
+					n++
+				}
+				continue
+			}
+			if !insertsSame(h, mp, key, lk) {
 				continue
 			}
 			if h != fn && !accumulatesAcrossCalls(fn, h, mp) {
@@ -313,4 +321,51 @@ func accumulatesAcrossCalls(fn, h *ssa.Function, mp ssa.Value) bool {
 		}
 	}
 	return found
+}
+
+// flagTestAndSet: the panic is guarded by a test of flags[i] (a slice or array
+// of bool indexed by the key), and flags[i] = true for the same flags and the
+// same i follows the test.
+func flagTestAndSet(pn *ssa.Panic) bool {
+	fn := pn.Parent()
+	for _, pred := range pn.Block().Preds {
+		iff, ok := pred.Instrs[len(pred.Instrs)-1].(*ssa.If)
+		if !ok {
+			continue
+		}
+		var v ssa.Value = iff.Cond
+		if u, ok := v.(*ssa.UnOp); ok && u.Op == token.NOT {
+			v = u.X
+		}
+		ld, ok := v.(*ssa.UnOp)
+		if !ok || ld.Op != token.MUL {
+			continue
+		}
+		ia, ok := ld.X.(*ssa.IndexAddr)
+		if !ok {
+			continue
+		}
+		if bt, isB := ld.Type().Underlying().(*types.Basic); !isB || bt.Kind() != types.Bool {
+			continue
+		}
+		for _, b := range fn.Blocks {
+			for _, instr := range b.Instrs {
+				st, ok := instr.(*ssa.Store)
+				if !ok {
+					continue
+				}
+				sa, ok := st.Addr.(*ssa.IndexAddr)
+				if !ok || sa.X != ia.X || sa.Index != ia.Index {
+					continue
+				}
+				if c, ok := st.Val.(*ssa.Const); !ok || constVal(c).K != KBool || !constVal(c).B {
+					continue
+				}
+				if b == pred || reaches(pred, b, nil) {
+					return true
+				}
+			}
+		}
+	}
+	return false
 }
